@@ -75,14 +75,19 @@ def initial_cases(tier, seed):
         pts += SPACE.deviations(2)
         pts += SPACE.product(["fam", "sl", "base", "mode", "nspin"])
     cases = [dict(p, kind="point", seed=seed) for p in SPACE.dedupe(pts)]
-    for fam, plan, nspin in itertools.product(["VJ", "VI", "VIJ", "VK"], ["gaussian", "spline"], [1, 2]):
-        cases.append({"kind": "nldfgen", "fam": fam, "plan": plan, "nspin": nspin, "seed": seed})
+    # both semilocal levels (the length-scale exponent has a separate routine per level) and both prefactor options
+    for fam, plan, nspin, sl, rm in itertools.product(["VJ", "VI", "VIJ", "VK"], ["gaussian", "spline"], [1, 2], ["npa", "np"], ["one", "expnt"]):
+        if sl == "np" and rm == "expnt" and fam in ("VI",):
+            pass
+        cases.append({"kind": "nldfgen", "fam": fam, "plan": plan, "nspin": nspin, "sl": sl, "rho_mult": rm, "seed": seed})
     for fam, nspin in itertools.product(["SDMX", "SDMX1", "SDMXG1", "SDMXFull", "SADM"], [1, 2]):
         cases.append({"kind": "sdmxgen", "fam": fam, "nspin": nspin, "seed": seed})
     for mol, fam, nspin in itertools.product(["He", "LiH", "Li"], ["SL", "VIJ", "VK", "SDMX1", "VIJ+SDMX1"], [1, 2]):
         if mol == "Li" and nspin == 1:
             continue
         cases.append({"kind": "e2e", "mol": mol, "fam": fam, "nspin": nspin, "seed": seed})
+        if fam in ("VIJ", "VK", "SL") and mol in ("He", "Li"):
+            cases.append({"kind": "e2e", "mol": mol, "fam": fam, "nspin": nspin, "sl": "np", "seed": seed})
     return cases
 
 
@@ -271,14 +276,15 @@ def run_nldfgen(case):
     from mc import fixtures as F
 
     mol = F.make_mol("He")
-    c = {"fam": case["fam"], "sl": "npa", "rho_mult": "one", "plan": case["plan"]}
+    sl = case.get("sl", "npa")
+    c = {"fam": case["fam"], "sl": sl, "rho_mult": case.get("rho_mult", "one"), "plan": case["plan"]}
     st, grids, g1, g2 = c07._nldf_gens(c, mol)
     g = g1 if case["nspin"] == 1 else g2
     fails = []
-    ck = "fam=%s;plan=%s;nspin=%d" % (case["fam"], case["plan"], case["nspin"])
+    ck = "fam=%s;plan=%s;nspin=%d;sl=%s;rho_mult=%s" % (case["fam"], case["plan"], case["nspin"], sl, c["rho_mult"])
     sig = []
     for variant in ("smooth", "zeros", "denormal", "step", "allzero"):
-        rho = _synthetic_rho(mol, grids, "MGGA", variant, case["nspin"])
+        rho = _synthetic_rho(mol, grids, st.sl_settings.level, variant, case["nspin"])
         with np.errstate(all="ignore"):
             try:
                 for s in range(case["nspin"]):
@@ -330,19 +336,22 @@ def run_e2e(case):
     from mc import fixtures as F
 
     mol = F.make_mol(case["mol"])
-    st = F.feature_settings(case["fam"])
+    st = F.feature_settings(case["fam"], slmode=case.get("sl", "npa"))
     ml = F.make_mlxc(st, evals=("RBF",), mode="SEP", seed=case["seed"])
     nspin = case["nspin"]
     # a long radial grid: the outermost shells are hundreds of Bohr away, the density underflows to 0
     ks = F.make_ks(mol, ml, nspin=nspin, atom_grid=(60, 26), lmax=4, xmix=1.0)
     fails = []
-    ck = "mol=%s;fam=%s;nspin=%d" % (case["mol"], case["fam"], nspin)
+    ck = "mol=%s;fam=%s;nspin=%d;sl=%s" % (case["mol"], case["fam"], nspin, case.get("sl", "npa"))
     rmax = float(np.linalg.norm(ks.grids.coords, axis=1).max())
     d0 = F.make_dm(mol, "D0")
     d1 = F.make_dm(mol, "D1", case["seed"])
     sig = []
-    for name, dm in (("D0", d0), ("D1", d1), ("zero", np.zeros_like(d0))):
-        dmu = dm if nspin == 1 else np.array([0.6 * dm, 0.4 * dm])
+    for name, dm in (("D0", d0), ("D1", d1), ("zero", np.zeros_like(d0)), ("emptybeta", d1)):
+        if name == "emptybeta" and nspin == 1:
+            continue
+        # "emptybeta": a one-channel system (all electrons in the alpha channel, beta density exactly zero everywhere)
+        dmu = dm if nspin == 1 else (np.array([dm, np.zeros_like(dm)]) if name == "emptybeta" else np.array([0.6 * dm, 0.4 * dm]))
         with np.errstate(all="ignore"):
             try:
                 n, e, v = F.nr(ks, dmu)
